@@ -40,6 +40,10 @@ class _Generator(Generator):
         return sorted([(canonical(data), value)
                        for data, value in type_.root_data_to_value.items()])
 
+    def get_enumerated_indexes(self, type_):
+        return sorted([(canonical(data), type_.root_data_to_index[data])
+                       for data in type_.root_data_to_index])
+
     def get_choice_members(self, type_):
         return type_.root_index_to_member.values()
 
@@ -468,10 +472,10 @@ class _Generator(Generator):
         if value_mapping_required:
             encode_lines = ['switch (src_p->{}) {{'.format(location)]
 
-            for data, _ in self.get_enumerated_values(type_):
+            for data, index in self.get_enumerated_indexes(type_):
                 encode_lines += [
                     'case {}_{}_e:'.format(self.location, data),
-                    '    {} = {};'.format(unique_value, type_.root_data_to_index[data]),
+                    '    {} = {};'.format(unique_value, index),
                     '    break;']
 
             encode_lines += [
@@ -508,8 +512,8 @@ class _Generator(Generator):
         if value_mapping_required:
             decode_lines.append('switch ({}) {{'.format(unique_value))
 
-            for data, _ in self.get_enumerated_values(type_):
-                decode_lines.append('case {}:'.format(type_.root_data_to_index[data]))
+            for data, index in self.get_enumerated_indexes(type_):
+                decode_lines.append('case {}:'.format(index))
                 decode_lines.append('    dst_p->{} = {}_{}_e;'.format(location,
                                                                       self.location,
                                                                       data))
